@@ -396,6 +396,8 @@ class Sc:
         return Sc.of(o) / s
 
     def __pow__(s, k):
+        if s._defer(k):
+            return NotImplemented
         if isinstance(k, Sc):
             if z3.is_rational_value(k.re) and is_zero(k.im):
                 f = frac_of(k.re)
@@ -418,6 +420,8 @@ class Sc:
         return opaque_fn("pow", s, Sc.of(k))
 
     def __rpow__(s, b):
+        if s._defer(b):
+            return NotImplemented
         return opaque_fn("pow", Sc.of(b), s)
 
     def conjugate(s):
